@@ -2,6 +2,7 @@ import datetime
 import ipaddress
 import os
 import re
+import types
 import typing
 import warnings
 from base64 import encodebytes
@@ -209,6 +210,9 @@ class Instance:
             f_default = f.default
             if f_default is MISSING:
                 f_default = self._self_builder.namespace.get(f_name, MISSING)
+                if isinstance(f_default, types.MemberDescriptorType):
+                    # the slot of a dataclass(slots=True), not a default
+                    f_default = MISSING
             if f_default is not MISSING:
                 f_default = _default(f_type, f_default, self.get_self_config())
 
